@@ -1,0 +1,56 @@
+//go:build verif && (verif_all || verif_c05)
+// +build verif
+// +build verif_all verif_c05
+
+package gocql
+
+// Verification hooks (build tag `verif`), property C05, sequence tier: observation of the session's
+// prepared-statement cache from an external harness. Add-only; nothing here is reachable without
+// the tags.
+
+import "encoding/hex"
+
+// VerifC05dStmtCache reports the state of the session's statement-cache entry of every given
+// statement text (for every host of the ring, session keyspace), in the order given:
+//
+//	absent            no entry under the key
+//	inflight          an entry whose flight is not finished (done channel open)
+//	ok:<id hex>       a finished flight holding a prepared statement
+//	nil               a finished flight WITHOUT a prepared statement (what evictPreparedID would
+//	                  dereference)
+//
+// and the total number of entries of the cache. The lookups go through lru.Cache.Get like the
+// driver's own (they refresh the recency of the entries looked at; the harness never fills the
+// cache to its capacity).
+func VerifC05dStmtCache(s *Session, stmts []string) (states []string, total int) {
+	hosts := s.ring.allHosts()
+	p := s.stmtsLRU
+	p.mu.Lock()
+	defer p.mu.Unlock()
+	for _, stmt := range stmts {
+		st := "absent"
+		for _, h := range hosts {
+			val, ok := p.lru.Get(p.keyFor(h.HostID(), s.cfg.Keyspace, stmt))
+			if !ok {
+				continue
+			}
+			ifp, ok := val.(*inflightPrepare)
+			if !ok {
+				st = "foreign"
+				continue
+			}
+			select {
+			case <-ifp.done:
+				if ifp.preparedStatment == nil {
+					st = "nil"
+				} else {
+					st = "ok:" + hex.EncodeToString(ifp.preparedStatment.id)
+				}
+			default:
+				st = "inflight"
+			}
+		}
+		states = append(states, st)
+	}
+	return states, p.lru.Len()
+}
